@@ -466,7 +466,9 @@ def pushToBlock2 (P : Params) (st : St) (p : Pkt) : Rx (St × Bool) :=
     | .ok none => .ok (st, false)
     | .ok (some pid) =>
       if tl = 0 then
-        if st.bw.isSome then .error (.panic "debug_assert block_writer.is_none()") else .ok (complete st, true)
+        if st.bw.isSome then .error (.panic "debug_assert block_writer.is_none()") else
+        -- D14 repaired (/repo 7ec1ac7): an empty object is completed only once its writer exists
+        .ok (if st.writer.isSome then complete st else st, true)
       else if st.nbBlocks ≤ pid.sbn then .ok (st, true)      -- SBN out of range: packet ignored
       else if pid.sbn < st.blocksOffset then .ok (st, true)
       else if st.blocks.length ≤ pid.sbn - st.blocksOffset ∧ 2 * MAX_PREALLOCATED_BLOCKS < pid.sbn - st.blocksOffset then
